@@ -117,7 +117,9 @@ func genEvidence() (string, error) {
 	for _, s := range sv.Body.List {
 		switch v := s.(type) {
 		case *ast.IfStmt:
-			if v.Init != nil && strings.Contains(g.StmtText(v.Init), "IsFeatureEnabled") {
+			// `if committeeScoped := s.IsFeatureEnabled(2); committeeScoped {` or the flag hoisted before the `if`
+			if (v.Init != nil && strings.Contains(g.StmtText(v.Init), "IsFeatureEnabled")) ||
+				(scoped == nil && strings.Contains(g.StmtsText(v.Body.List), "GetTotalSlashPercent")) {
 				scoped = v
 			}
 		case *ast.SwitchStmt:
@@ -206,7 +208,35 @@ func genEvidence() (string, error) {
 		return "", fmt.Errorf("SlashValidator: stake switch has no default arm")
 	}
 	fmt.Fprintf(&b, "/-- fsm.SlashValidator: `%s` -/\ndef stakeAfterSlash (stake percent : UInt64) : UInt64 :=\n%s\n  %s\n\n", g.StmtText(sw), strings.Join(arms, "\n"), def)
-	evWriteList(&b, "slashValidatorScoped", "the protocol-v2 block of fsm.SlashValidator, normalised", append([]string{"if " + g.StmtText(scoped.Init) + "; " + g.ExprText(scoped.Cond) + " {"}, append(evIndent(scopedSteps), "}")...))
+	scopedHead := "if " + g.ExprText(scoped.Cond) + " {"
+	if scoped.Init != nil {
+		scopedHead = "if " + g.StmtText(scoped.Init) + "; " + g.ExprText(scoped.Cond) + " {"
+	}
+	evWriteList(&b, "slashValidatorScoped", "the protocol-v2 block of fsm.SlashValidator, normalised", append([]string{scopedHead}, append(evIndent(scopedSteps), "}")...))
+	// the whole function, one statement per line, and where in it the tracker is written relative to the first
+	// state change and to the returns (every early return after a stake change must find the tracker updated)
+	svLines := evNormBody(sv, evDropLog)
+	evWriteList(&b, "slashValidator", "fsm.SlashValidator, normalised", svLines)
+	addLine, mutLine := -1, -1
+	var retLines []string
+	for i, l := range svLines {
+		t := strings.TrimSpace(l)
+		if strings.HasPrefix(t, "s.slashTracker.AddSlash(") && addLine < 0 {
+			addLine = i
+		}
+		if strings.Contains(t, "s.SubFromTotalSupply(") && mutLine < 0 {
+			mutLine = i
+		}
+		if t == "return" || strings.HasPrefix(t, "return ") {
+			retLines = append(retLines, fmt.Sprint(i))
+		}
+	}
+	if addLine < 0 || mutLine < 0 {
+		return "", fmt.Errorf("SlashValidator: s.slashTracker.AddSlash(..) or s.SubFromTotalSupply(..) not found")
+	}
+	fmt.Fprintf(&b, "/-- index in `slashValidator` of the (first) tracker update -/\ndef slashValidator_addSlashLine : Nat := %d\n", addLine)
+	fmt.Fprintf(&b, "/-- index in `slashValidator` of the first state change (the burn from the total supply) -/\ndef slashValidator_firstChangeLine : Nat := %d\n", mutLine)
+	fmt.Fprintf(&b, "/-- indices in `slashValidator` of all return statements -/\ndef slashValidator_returnLines : List Nat := [%s]\n\n", strings.Join(retLines, ", "))
 
 	// ---- fsm.LoadMinimumEvidenceHeight arithmetic
 	lm := byz.FindFunc("StateMachine", "LoadMinimumEvidenceHeight")
